@@ -1075,6 +1075,8 @@ func TestReplay(t *testing.T) {
 	switch c.Layout {
 	case "api":
 		runAPI(context.Background(), t, r, &c)
+	case "dup-pinned":
+		runDupPinned(context.Background(), t, r, &c)
 	case "cli":
 		runCLI(context.Background(), t, r, &c)
 	default:
